@@ -124,6 +124,10 @@ def extra(tier, rng, workdir):
         for i in range(nvals):
             r = rng.fork(ti * 1000 + i)
             vals.append({"T": name, "v": cl.gen_value(T[name]["r"], r, pool)})
+        if cl.has_free_varbytes(T[name]["r"]):
+            # long byte blocks (around 1 KiB - 3 KiB): most sampled cuts of such an encoding fall inside the block
+            for i in range(2 if quick else 6):
+                vals.append({"T": name, "v": cl.gen_value(T[name]["r"], rng.fork(ti * 1000 + 900 + i), pool, big=True), "big": True})
     t0 = time.time()
     # 2 real serialisation --------------------------------------------------------------------------
     obs, _ = harness_ops([["ser", x["T"], cl.to_json(x["v"])] for x in vals], workdir, "ser")
@@ -197,7 +201,7 @@ def extra(tier, rng, workdir):
     vlib.log('C15 inputs+oracles %.1fs (%d inputs)' % (time.time() - t0, len(inputs)))
     # 4 real deserialisation ------------------------------------------------------------------------
     obs, ex = harness_ops([["de", it["T"], it["bs"].hex()] for it in inputs], workdir, "de", per_case=200)
-    dec_rows = []
+    dec_rows, dec_idx = [], []
     hist = {"full": 0, "exact": 0, "prefix": 0, "mutation": 0}
     classes = {0: 0, 1: 0, 2: 0}
     py_disagree = 0
@@ -219,6 +223,13 @@ def extra(tier, rng, workdir):
         p = it["pred"]
         if p["cls"] != o[0] or (o[0] == 0 and p["consumed"] != o[1]):
             py_disagree += 1
+        # the model is evaluated on every input of the ordinary values; of the long-block values (the cost in Coq is
+        # the length of the input) on the exact encoding and a few cuts - the real decoders see all of them above
+        if x.get("big"):
+            nbig = x["nbig"] = x.get("nbig", 0) + 1
+            if it["kind"] not in ("exact",) and nbig > 5:
+                continue
+        dec_idx.append(it)
         dec_rows.append('("%s", %s, %s, %d, %d, %s)' % (it["T"], cl.otable_coq(p["used"]), cl.zl(it["bs"]), o[0], o[1],
                                                        "Some " + cl.to_coq(it["val"]) if it["val"] is not None else "None"))
 
@@ -297,7 +308,7 @@ def extra(tier, rng, workdir):
         red.append({"what": "correspondence", "suite": "encode", "type": x["T"], "code": {1: "bytes differ", 2: "value not well-formed in the model"}.get(code, code),
                     "value": cl.summarize(x["v"]), "real": x["real"].hex()})
     for idx, info in r2:
-        it = inputs[idx]
+        it = dec_idx[idx]
         red.append({"what": "correspondence", "suite": "decode", "type": it["T"], "kind": it["kind"], "input": it["bs"].hex(),
                     "real": [it["cls"], it["consumed"]], "model": info,
                     "code": {1: "outcome class", 2: "bytes consumed", 3: "decoded value", 4: "no value reported"}.get(info[0], info[0])})
